@@ -515,7 +515,7 @@ macro_rules! __priv_pa_bytes_accessor {
 macro_rules! __priv_no_tokens_after_last_branch {
     () => {};
     ($($tokens:tt)+) => {
-        compile_error! {"expected no branches after the first `_ => <expression>` branch"}
+        $crate::__::compile_error! {"expected no branches after the first `_ => <expression>` branch"}
     };
 }
 
@@ -523,7 +523,7 @@ macro_rules! __priv_no_tokens_after_last_branch {
 #[macro_export]
 macro_rules! __priv_tokens_after_middle_branch {
     () => {
-        compile_error! {"expected more branches, ending with a `_ => <expression>` branch"}
+        $crate::__::compile_error! {"expected more branches, ending with a `_ => <expression>` branch"}
     };
     ($($tokens:tt)+) => {};
 }
